@@ -52,14 +52,16 @@ CellSet(cell, c, G) ==
 NoClass(c) == [c EXCEPT !.digit = FALSE, !.nondigit = FALSE, !.space = FALSE,
                         !.nonspace = FALSE, !.word = FALSE, !.nonword = FALSE]
 
-(* E: the EXPECTED language of a list of test cases under settings c *)
+(* E: the EXPECTED language of a list of test cases under settings c, as explicit set ... *)
 ExpWord(t, c, G) == ProdS([i \in DOMAIN t |-> CellSet(t[i], c, G)])
 E(T, c, G) == UNION {ExpWord(T[i], c, G) : i \in DOMAIN T}
 
-(* number of words of E, computed without building it (guards the explicit-set semantics) *)
-RECURSIVE ProdCard(_, _, _), SumCard(_, _, _)
-ProdCard(t, c, G) == IF t = <<>> THEN 1 ELSE Cardinality(CellSet(Head(t), c, G)) * ProdCard(Tail(t), c, G)
-SumCard(T, c, G) == IF T = <<>> THEN 0 ELSE ProdCard(Head(T), c, G) + SumCard(Tail(T), c, G)
+(* ... and as an AST for the symbolic semantics *)
+CellSeq(cell, c, G) ==
+  LET t == Token(cell, c) IN
+  IF t = "lit" THEN (IF c.icase THEN cell.fold ELSE cell.lit) ELSE ClassAtoms(G, t, c.icase)
+WordAst(t, c, G) == [t |-> "cat", xs |-> [i \in DOMAIN t |-> [t |-> "cls", s |-> CellSeq(t[i], c, G)]]]
+ExpAst(T, c, G) == [t |-> "alt", xs |-> [i \in DOMAIN T |-> WordAst(T[i], c, G)]]
 
 TheWord(t) == [i \in DOMAIN t |-> t[i].lit[1]]
 
@@ -76,10 +78,15 @@ NoDup(pre) == \A i, j \in DOMAIN pre : i # j => TheWord(pre[i]) # TheWord(pre[j]
 (***************************************************************************)
 (* S3-S5 on one cluster                                                    *)
 (***************************************************************************)
-SegmentOk(cluster, t, c, G)   == SymsLang(cluster) = ExpWord(t, NoClass(c), G)
-ClassConvOk(cluster, t, c, G) == SymsLang(cluster) = ExpWord(t, c, G)
-RepConvOk(after, before)      == /\ SymsLang(after) = SymsLang(before)
-                                 /\ \A i \in DOMAIN after : NestOk(after[i])
+SameLang(e1, e2, G) == EqD(DescAst(e1), DescAst(e2), G.n, FALSE)
+SegmentOk(cluster, t, c, G)   == SameLang(SymsAst(cluster), WordAst(t, NoClass(c), G), G)
+ClassConvOk(cluster, t, c, G) == SameLang(SymsAst(cluster), WordAst(t, c, G), G)
+RECURSIVE NestedOk(_, _)
+NestedOk(sym, G) == \/ sym.nest = <<>>
+                    \/ /\ SameLang(SymsAst(sym.nest), UnitAst(sym), G)
+                       /\ \A i \in DOMAIN sym.nest : NestedOk(sym.nest[i], G)
+RepConvOk(after, before, G)   == /\ SameLang(SymsAst(after), SymsAst(before), G)
+                                 /\ \A i \in DOMAIN after : NestedOk(after[i], G)
 
 (* C13 at the cluster level: a symbol is counted only if it clears both thresholds *)
 SymThresholdOk(sym, c) == (sym.hi > 1 \/ sym.lo > 1) => (sym.hi > c.minrep /\ Len(sym.u) >= c.minsub)
@@ -92,6 +99,7 @@ ClusterThresholdsOk(cluster, c) ==
 (***************************************************************************)
 (* S6-S9                                                                   *)
 (***************************************************************************)
+(* explicit-set forms (used by the bounded models over tiny alphabets) *)
 ClustersLang(cl) == UNION {SymsLang(cl[i]) : i \in DOMAIN cl}
 TrieOk(trie, cl)  == Acyclic(trie) /\ GraphLang(trie) = ClustersLang(cl)
 MinLangOk(min, trie) == Acyclic(min) /\ GraphLang(min) = GraphLang(trie)
